@@ -85,6 +85,41 @@ def _sels(rng, size):
             ["frac", rs(rng.choice([Fraction(1, 2), Fraction(9, 10), Fraction(99, 100)]))]]
 
 
+HISTORIES = ["mean-LP", "mean-PS", "covariance", "inner_product", "center", "smooth", "fit-smoothed", "values-reassigned"]
+
+
+def _apply_history(fd, hist, X):
+    """Use the data object before it is fitted (errors of these preliminary calls are irrelevant here)."""
+    from FDApy.preprocessing.dim_reduction.ufpca import UFPCA
+    from FDApy.representation.values import DenseValues
+
+    try:
+        if hist == "mean-LP":
+            fd.mean(method_smoothing="LP")
+        elif hist == "mean-PS":
+            fd.mean(method_smoothing="PS")
+        elif hist == "covariance":
+            fd.covariance(method_smoothing="PS")
+            fd.covariance()
+        elif hist == "inner_product":
+            fd.inner_product(method_smoothing="PS", noise_variance=0.0)
+        elif hist == "center":
+            fd.center(method_smoothing="LP")
+            fd.center()
+        elif hist == "smooth":
+            fd.smooth(method="PS")
+        elif hist == "fit-smoothed":
+            UFPCA(method="covariance", n_components=1).fit(fd, method_smoothing="PS")
+        elif hist == "values-reassigned":
+            fd.values = DenseValues(np.array(X)[::-1] * 2.0 + 3.0)
+            fd.mean()
+            fd.mean(method_smoothing="PS")
+            fd.values = DenseValues(np.array(X, dtype=float))
+    except Exception:  # noqa: BLE001
+        pass
+    return fd
+
+
 def _nearly_tied(rng, t, ratio):
     """Four curves ±a f₁ ± b f₂ (+ a small third direction) with f₁, f₂ orthonormal for the trapezoid weights of `t`
     and b²/a² = ratio: the two leading eigenvalues of the covariance operator (and of the Gram matrix) have that
@@ -141,6 +176,16 @@ def gen_cases(rng: Rng, tier):
             sc = Fraction(2) ** rng.choice([0, 0, -20, 20])
             yield dict(kind=method, t=Svec(t), X=Smat([[x * sc for x in r] for r in X]), sel=rng.choice([["int", 2], ["all"]]),
                        ck=f"grid:{label}", scale=rs(sc))
+    # data objects WITH A HISTORY (every run, both routes): the object handed to fit has been used before — a smoothed mean,
+    # a covariance, a Gram matrix, center(), smooth(), an earlier fit with method_smoothing, new values assigned after a
+    # mean call; the clauses are judged against the covariance / Gram matrix of the plain values
+    for hist in HISTORIES:
+        for method in ("cov", "gram"):
+            n, m = rng.randint(4, 7), rng.randint(8, 12)
+            t = grid(rng, m, uniform=rng.random() < 0.5)
+            X, ck = curves(rng, n, t, rng.choice(["rough", "offset"]) if method == "cov" else rng.choice(["smooth", "offset"]))
+            yield dict(kind=method, t=Svec(t), X=Smat(X), sel=rng.choice([["int", 2], ["all"]]), ck=f"history:{hist}", scale="1",
+                       history=hist)
     # nearly tied leading eigenvalues (every run): λ₂/λ₁ = 0.9 … 0.999 (NOT exactly tied — that is the open finding),
     # one, two and all components, both routes; iterative shortcuts stall here, LAPACK does not
     for ratio in (0.9, 0.97, 0.99, 0.999):
@@ -209,9 +254,12 @@ def witness_cases():
 # implementation side
 # --------------------------------------------------------------------------
 
-def _fit_stage(est, kind, t, X, layout="C", smooth=None):
+def _fit_stage(est, kind, t, X, layout="C", smooth=None, history=None):
     """Fit `est` on (t, X) under capture and read every observable of the property."""
     fd = dense([t], X, layout)
+    if history:
+        with quiet():
+            fd = _apply_history(fd, history, X)
     out = {}
     with quiet(), EigCapture() as cap:
         try:
@@ -283,7 +331,8 @@ def run_impl(case):
     method = "covariance" if case["kind"] == "cov" else "inner-product"
     mk = lambda: UFPCA(method=method, n_components=sel_to_py(case["sel"]), normalize=False)  # noqa: E731
     est = mk()
-    out = _fit_stage(est, case["kind"], Fv(case["t"]), np.array(fl(Fm(case["X"]))), case.get("layout", "C"), case.get("smooth"))
+    out = _fit_stage(est, case["kind"], Fv(case["t"]), np.array(fl(Fm(case["X"]))), case.get("layout", "C"), case.get("smooth"),
+                     case.get("history"))
     if case.get("smooth") and "error" not in out:
         out["train"] = np.asarray(est._training_data.values, dtype=float).tolist()
     if "B" in case and "error" not in out:
